@@ -255,6 +255,28 @@ fn fault_run(case: &C09Case, tw: &Twin, k: usize, repeated: bool, cnt: &mut Coun
                 // whatever reached storage must not be a mixture
                 closure_equiv(&w.reps[i].store.snap(), "storage after a failed commit")?;
                 let _ = s0;
+                // what an error handler might try before retrying: resynchronising with storage. With
+                // changes staged these calls must be refused (or at least must not lose them): the staged
+                // changes are still present afterwards
+                if (k + i) % 2 == 0 {
+                    let which = (k / 2 + i) % 3;
+                    let r = match which {
+                        0 => guard("reload", || w.reps[i].m.reload())?.map_err(|e| e.to_string()),
+                        1 => guard("refresh", || w.reps[i].m.refresh())?.map_err(|e| e.to_string()),
+                        _ => {
+                            let anchors = guard("get_anchors", || w.reps[i].m.get_anchors())?;
+                            guard("reload_until", || w.reps[i].m.reload_until(&anchors))?.map_err(|e| e.to_string())
+                        }
+                    };
+                    let name = ["reload", "refresh", "reload_until(current heads)"][which];
+                    w.log.push(format!("r{} {} between the failed commit and its retry -> {:?}", i, name, r));
+                    let staged_now = guard("has_staging", || w.reps[i].m.has_staging())?;
+                    let after = obs(&w.reps[i].m)?;
+                    if !staged_now || after.doc != post.doc || after.objects != post.objects || after.winners != post.winners {
+                        return viol("C09", format!("{} called after a failed commit ({:?}) lost the staged changes (has_staging={}): {}", name, r, staged_now, first_diff(&post, &after)));
+                    }
+                    *cnt.entry("resync_attempts_between_failure_and_retry").or_insert(0) += 1;
+                }
                 if repeated {
                     let w1 = w.reps[i].store.with(|s| {
                         let w1 = s.writes;
